@@ -201,7 +201,8 @@ class ListField(Field):
 
     def __setdefault__(self, cfg: Config) -> None:
         default = self.default
-        if isinstance(default, list):
+        if isinstance(default, (list, tuple)):
+            # (a tuple is accepted wherever a list is, see _validate)
             if self.field:
                 default = ListProxy(cfg, self, default)
             else:
